@@ -365,6 +365,7 @@ def _commutes_rules(ctx, repo):
                z.mod.rel, fn.lineno)
 
     _trace_distance_rules(ctx, repo)
+    _phase_by_rules(ctx, repo)
     ctx.decided.append('C08.i no statement discards the result of a value-semantics method (inverse / then / with_* / replace ...): `t.inverse()` without rebinding is a no-op')
     shared.discarded_value_rule(ctx, 'C08.i')
     ctx.decided.append('C08.j predicates and builders write the private fields of another object only when that object was created in the same function (EigenGate._equal_up_to_global_phase_ zeroes _global_shift on the result of _with_exponent, which therefore must never be self)')
@@ -493,3 +494,72 @@ def _trace_distance_rules(ctx, repo):
     ok = eg is not None and any(isinstance(c, ast.Call) and call_name(c) == 'trace_distance_from_angle_list' for c in ast.walk(eg)) and '_eigen_shifts' in ast.unparse(eg) \
         and '_exponent' in ast.unparse(eg)
     ctx.ob('C08.f', 'cirq.ops.eigen_gate.EigenGate._trace_distance_bound_', ok, '' if ok else 'the default bound is no longer computed from the eigen-shifts times the exponent', Eigen.mod.rel, getattr(eg, 'lineno', 1))
+
+
+def _phase_by_rules(ctx, repo):
+    """C08.h - phase_by of X / Y powers (interpreted, helper included) conjugates by the Z rotation up to global phase."""
+    from . import c03
+    ctx.decided.append('C08.h XPowGate / YPowGate._phase_by_ (interpreted together with the helper that picks X, Y or PhasedX) return a gate equal to Z^(2t) G Z^(-2t) up to '
+                       'global phase for probe exponents and phase turns, including the half-turn and quarter-turn shortcuts')
+    ctx.rule('C08.h', 'phase_by soundness: for G in {X**e, Y**e} and probe phase turns t the gate returned by _phase_by_(t, 0) has the matrix Z**(2t) G Z**(-2t) up to a global phase',
+             floor=40, style='FDX')
+    cg = repo.module('cirq-core/cirq/ops/common_gates.py')
+    X, Y = repo.cls('cirq.ops.common_gates.XPowGate'), repo.cls('cirq.ops.common_gates.YPowGate')
+    cx, _ = c03._components(repo, X, 2)
+    cy, _ = c03._components(repo, Y, 2)
+
+    def mat(comps, e):
+        return sum(np.exp(1j * np.pi * e * t) * m for t, m in comps)
+
+    def zrot(h):
+        return np.diag([1, np.exp(1j * np.pi * h)])
+
+    class GV:
+        def __init__(self, kind, exponent, phase_exponent=0.0):
+            self.kind, self.exponent, self.phase_exponent = kind, exponent, phase_exponent
+
+        def matrix(self):
+            if self.kind == 'X':
+                return mat(cx, self.exponent)
+            if self.kind == 'Y':
+                return mat(cy, self.exponent)
+            p_ = self.phase_exponent
+            return zrot(p_) @ mat(cx, self.exponent) @ zrot(-p_)
+    for ci, comps, nm in ((X, cx, 'X'), (Y, cy, 'Y')):
+        fn = ci.methods.get('_phase_by_')
+        if fn is None:
+            raise AnalysisError(f'{ci.qual}._phase_by_ vanished')
+        for e in (0.3, 0.5, 1, -0.7):
+            for t in (0, 0.125, 0.25, -0.25, 0.5, -0.5, 0.375, 0.75, 1.0):
+                def call_hook(call, it):
+                    s_ = ast.unparse(call.func).split('.')[-1]
+                    kws = {k.arg: it.ev(k.value) for k in call.keywords}
+                    if s_ == 'XPowGate':
+                        return GV('X', kws.get('exponent', 1.0))
+                    if s_ == 'YPowGate':
+                        return GV('Y', kws.get('exponent', 1.0))
+                    if s_ == 'PhasedXPowGate':
+                        return GV('PhX', kws.get('exponent', 1.0), kws.get('phase_exponent', 0.0))
+                    if s_ == 'canonicalize_half_turns':
+                        h = float(it.ev(call.args[0]))
+                        h = h % 2
+                        return h - 2 if h > 1 else h
+                    if s_ == 'is_constant':
+                        return True
+                    return NotImplemented
+                it = fdx.NumInterp({'self': {'_exponent': e, 'exponent': e, '_global_shift': 0.0, '_dimension': 2}, 'phase_turns': t, 'qubit_index': 0,
+                                    'isinstance': lambda v, tt: False}, call_hook=call_hook)
+                it.resolver = c03.make_resolver(repo, cg, fn)
+                try:
+                    g = it.call(fn)
+                except fdx.Unsupported as ex:
+                    raise AnalysisError(f'{ci.qual}._phase_by_ is outside the interpretable subset: {ex}')
+                want = zrot(2 * t) @ mat(comps, e) @ zrot(-2 * t)
+                ok = isinstance(g, GV)
+                if ok:
+                    got = g.matrix()
+                    ov = abs(np.trace(want.conj().T @ got)) / 2
+                    ok = abs(ov - 1) < 1e-9
+                ctx.ob('C08.h', f'{ci.qual}._phase_by_:e={e}:t={t}', ok,
+                       '' if ok else f'phase_by({nm}**{e}, {t}) returns {g.kind if isinstance(g, GV) else g}(exponent={getattr(g, "exponent", None)}, phase_exponent={getattr(g, "phase_exponent", None)}), '
+                       f'which is not Z**{2 * t} {nm}**{e} Z**{-2 * t} up to phase', ci.mod.rel, fn.lineno, construct=f'{ci.qual}._phase_by_')
